@@ -136,9 +136,9 @@ def run_property(prop, tier, seed, replay=None):
     for name in getattr(oracle, "DECIDING", []):
         if m["monitors"].get(name, 0) == 0:
             inconclusive.append(f"deciding monitor '{name}' evaluated 0 times")
-    band = sum(v for k, v in m["inconclusive"].items() if k.startswith("band:"))
+    band = sum(m["inconclusive"].values())
     if m["cases_run"] and band > 0.01 * m["cases_run"]:
-        inconclusive.append(f"{band} cases in tolerance band (>1%)")
+        inconclusive.append(f"{band} un-judgeable cases/events (>1% of cases): {dict(m['inconclusive'])}")
 
     # --- classify violations -----------------------------------------------------------
     findings = load_findings()
@@ -164,7 +164,7 @@ def run_property(prop, tier, seed, replay=None):
                 {
                     "property": prop, "seed": seed, "tier": tier, "cases": cases[:16],
                     "mechanisms": {k: m["viol_counts"][k] for k in unknown},
-                    "violations": [v for v in m["violations"] if v["mechanism"] in unknown][:20],
+                    "violations": _pick(m["violations"], unknown),
                 },
                 fh, indent=1,
             )
@@ -175,6 +175,10 @@ def run_property(prop, tier, seed, replay=None):
     elif inconclusive:
         lines.append(f"INCONCLUSIVE property={prop} reason={inconclusive[0][:500]}")
         rc = 2
+    if not unknown and replay is None:
+        stale = os.path.join(VERIF, "replays", f"{prop}_seed{seed}_{tier}.json")
+        if os.path.exists(stale):
+            os.remove(stale)
     if unknown and inconclusive:
         lines.append(f"  (also inconclusive: {inconclusive[0][:800]})")
 
@@ -192,6 +196,15 @@ def run_property(prop, tier, seed, replay=None):
         f"(known={sum(known_hit.values())}) wall={time.time()-t0:.1f}s rc={rc}"
     )
     return rc
+
+
+def _pick(viols, mechs, per=3, cap=30):
+    out, cnt = [], {}
+    for v in viols:
+        if v["mechanism"] in mechs and cnt.get(v["mechanism"], 0) < per:
+            cnt[v["mechanism"]] = cnt.get(v["mechanism"], 0) + 1
+            out.append(v)
+    return out[:cap]
 
 
 def write_evidence(prop, tier, seed, oracle, m, known_hit, unknown, inconclusive, wall):
